@@ -96,6 +96,23 @@ ROUND4 = {
     "C20": "Round 4: every public Study property returns a deep copy where a backend may share; deepcopy with a pre-seeded memo is not a deep copy; template copies are deep.",
 }
 
+# clauses added in seeding round 5
+ROUND5 = {
+    "C01": "Round 5: create_new_study returns the id of the study found by its own name; get_all_trials is number-ordered in both caches and the RDB query; template distributions enter the in-memory compatibility table.",
+    "C02": "Round 5: the stop flag is cleared before the loops start; the completion log expects that no best trial exists yet.",
+    "C03": "Round 5: the RDB trial number is counted from the row's own id after its insert; a backend write the cache mirrors and the cache update share one critical section.",
+    "C04": "Round 5: the journal cursor advances one record at a time; the caches' incremental fetch is not filtered by state.",
+    "C05": "Round 5: readers skip (not raise on) a torn last line; RDB writers acknowledge nothing after a failed transaction; an empty batch writes nothing.",
+    "C06": "Round 5: both sides of an issuer test share the record's fate; every Redis key carries the backend's prefix.",
+    "C07": "Round 5: the deferred decode error is raised only inside the size snapshot; every newline written terminates a record.",
+    "C08": "Round 5: a cached study entry is dropped on every path of delete_study; backend delete and cache update are one section.",
+    "C09": "Round 5: the scan-based best trial is the first extremal one in number order; copy_study's re-validation of library-produced trials is reported (known finding).",
+    "C10": "Round 5: Trial's container properties return deep copies of its private cache.",
+    "C13": "Round 5: no-reference sentinels of pruner helpers are NaN, not an infinity; in sign-applying functions every objective read is signed.",
+    "C16": "Round 5: successive halving never records NaN as a rung value.",
+    "C20": "Round 5: FrozenTrial arguments of study code count as shared; Study wrappers honour deepcopy=True; fields a Study caches from storage getters are as shared as the getter's result.",
+}
+
 PENDING_REASON = "static check designed (DESIGN.md §3) but not built yet in this snapshot; not claimed until it runs clean"
 
 
@@ -107,6 +124,8 @@ def main():
             tech, text, note, ref = CLAIMED[pid]
             if pid in ROUND4:
                 text = text + " " + ROUND4[pid]
+            if pid in ROUND5:
+                text = text + " " + ROUND5[pid]
             checks.append({
                 "property_id": pid,
                 "quick_cmd": f"./check {pid} --tier quick",
